@@ -344,7 +344,7 @@ func view(n *node.Node) chainView {
 
 func TestConvergence(t *testing.T) {
 	rapid.Check(t, func(t *rapid.T) {
-		nVal := rapid.IntRange(3, 5).Draw(t, "validators")
+		nVal := rapid.SampledFrom([]int{3, 4, 5, 3, 4, 5, 6, 7, 8, 10}).Draw(t, "validators") // 6+ validators: fast sync offers 2n-1 > 10 block IDs (added after seeded change C20-n)
 		base := rapid.IntRange(0, 40).Draw(t, "ipBase") * 3
 		// All lengths are drawn first: an "up to date" pair of nodes needs a clock ("now" slot) just after the last block.
 		prefix := rapid.IntRange(1, 14).Draw(t, "prefix")
